@@ -12,6 +12,9 @@ its two halves, munmap only hits live buffer mappings, nothing is left at
 quiescent markers (also cross-checked with /proc/self/fd and /proc/self/maps).
 Aliasing is probed through the window API for every byte i of a one-page buffer
 (value written at i+size read back at i).
+The protocol design behind the calls is MmapProto.tla (model-checked here with
+other code mapping into every hole; three wrong designs refuted); every traced
+call is also one step of that design (labels proto_*).
 """
 import json, os, random, re, subprocess
 from lib import vlib
@@ -104,7 +107,7 @@ def project(strace_path, out_events, tf):
                 evs.append({"ev": "quiet", "fds": mk.get("fds", -1), "maps": mk.get("maps", -1), "base_fds": base_fds})
             elif parts[1] == "begin":
                 inside = True
-                evs.append({"ev": "begin", "op": parts[0], "slot": int(parts[2])})
+                evs.append({"ev": "begin", "op": parts[0], "slot": int(parts[2]), "size": news.get(int(parts[2]), {}).get("size", 0)})
             else:
                 inside = False
                 e = {"ev": "end", "op": parts[0], "slot": int(parts[2]), "result": "-", "size": 0, "elem": 1}
@@ -264,10 +267,34 @@ def inject_runs(ctx, th):
     return nfirst + nfixed
 
 
+def proto_model(ctx, th):
+    """The protocol design (MmapProto): exhaustive with two or three buffer
+    threads and other code mapping pages into every hole; each wrong design
+    (quirk) must be refuted by NeverHitsOthers."""
+    def c(q, threads="{1, 2}", pages=6, sizes="{1, 2}", foreign=1):
+        return {"Pages": pages, "Threads": threads, "Sizes": sizes, "Foreign": foreign, "Quirks": q}
+    cfg = ctx.path("mmapproto.cfg")
+    for consts in ([c("{}"), c("{}", "{1, 2, 3}", 7, "{1}", 2)] if th else [c("{}")]):
+        vlib.write_cfg(cfg, consts, spec="PSpec", invariants=["PInv"])
+        r = vlib.tlc(ctx, "MmapProto", cfg, workers=4, timeout=1500)
+        if r.violated or not r.ok:
+            raise vlib.ToolError(f"MmapProto (no quirks) violates {r.violated}:\n{r.out[-1500:]}")
+        ctx.cov["states"] += r.distinct
+        ctx.cov["transitions"] += r.generated
+    for q in ("unmap_upper_twice", "hole_before_fixed", "reserve_half"):
+        vlib.write_cfg(cfg, c('{"%s"}' % q), spec="PSpec", invariants=["NeverHitsOthers"])
+        r = vlib.tlc(ctx, "MmapProto", cfg, workers=4, timeout=600)
+        if "NeverHitsOthers" not in " ".join(r.violated) and "violated" not in r.out:
+            raise vlib.ToolError(f"MmapProto: wrong design {q} is not refuted (NeverHitsOthers is vacuous)")
+    ctx.notes.append("MmapProto: protocol design exhaustive (no call of a buffer ever hits another mapping, in any interleaving with other code mapping into holes); "
+                     "the wrong designs unmap_upper_twice, hole_before_fixed, reserve_half each violate NeverHitsOthers")
+
+
 def run(ctx):
     vlib.build_harness()
     rnd = random.Random(ctx.seed)
     th = ctx.thorough()
+    proto_model(ctx, th)
     # the accounting model itself (tiny): sanity of the operators via a fixed trace is part of one_run
     total_sys = 0
     runs = []
@@ -306,7 +333,18 @@ def run(ctx):
         t = vlib.tlc(ctx, "Mmap_Trace", cfg, workers=1, timeout=600, env={"TRACE": bad}, dfs=True)
         if "mapping_left_after_drop" not in t.out and "mappings_at_quiescence" not in t.out:
             raise vlib.ToolError("binding self-test failed: a dropped munmap was not flagged")
-        ctx.notes.append("binding self-test: trace with one munmap removed is flagged (mapping left)")
+        if "proto_unfinished" not in t.out:
+            raise vlib.ToolError("binding self-test failed: a dropped munmap is not a protocol deviation")
+        # ... and one with the second (MAP_FIXED) mapping shortened by a page must be a protocol deviation
+        k = next(i for i, l in enumerate(lines) if '"fixed":true' in l and '"ok":true' in l)
+        e = json.loads(lines[k])
+        e["len"] -= 4096 if e["len"] > 4096 else 1
+        with open(bad, "w") as f:
+            f.write("\n".join(json.dumps(e, separators=(',', ':')) if i == k else l for i, l in enumerate(lines)) + "\n")
+        t = vlib.tlc(ctx, "Mmap_Trace", cfg, workers=1, timeout=600, env={"TRACE": bad}, dfs=True)
+        if "proto_range" not in t.out:
+            raise vlib.ToolError("binding self-test failed: a shortened second mapping is not a protocol deviation")
+        ctx.notes.append("binding self-test: trace with one munmap removed is flagged (mapping left, protocol unfinished); a shortened MAP_FIXED mapping is flagged (proto_range)")
     ctx.cov["states"] += total_sys
     ctx.cov["transitions"] += total_sys
     ctx.cov["distinct_nontrivial"] += sum(len(s["ops"]) for _, s in runs)
